@@ -60,7 +60,7 @@ struct Op {
 phx::World W;
 ObjectCache<int, Obj*>* OC;
 std::vector<std::vector<Op>> scripts;
-int n_ops = 0, n_keys = 1;
+int n_ops = 0, n_keys = 1, n_workers = 0;
 const uint64_t T_US[] = {1, 20, 50, 100, 200, 500, 1000, 2000, 5000};
 
 void gen_plan() {
@@ -90,6 +90,24 @@ void gen_plan() {
             scripts[t].push_back(o);
         }
         W.add(sim::rnd(W.nvcpu), [t](int) { run_script(t); });
+    }
+    // interrupters: thread_interrupt() may hit a worker anywhere (parked as a recycler, waiting for a pending recycle,
+    // inside a slow constructor, while holding); none of the guarantees may depend on not being interrupted
+    n_workers = nth;
+    int n_intr = sim::rnd(2) ? 1 + sim::rnd(2) : 0;
+    for (int k = 0; k < n_intr; k++) {
+        std::vector<std::pair<int, uint64_t>> plan;
+        int n = 2 + sim::rnd(12);
+        for (int i = 0; i < n; i++) plan.push_back({(int)sim::rnd(nth), T_US[sim::rnd(8)]});
+        W.add(sim::rnd(W.nvcpu), [plan](int) {
+            for (auto& p : plan) {
+                thread_usleep(p.second);
+                phx::ThreadRec& tg = W.threads[p.first];
+                if (!tg.th || !tg.started || tg.done) continue;
+                sim::probe("interrupt_sent");
+                thread_interrupt(tg.th, EINTR);
+            }
+        });
     }
 }
 
